@@ -141,7 +141,7 @@ func (w *Writer) WriteMessage(message any, codec Codec) (err error) {
 	messageDesc := QueryMessageDesc(message)
 
 	if messageDesc.IsOutside() {
-		data, encErr := codec.Encode(message)
+		data, encErr := EncodeOutsideMessage(codec, message)
 		if encErr != nil {
 			return encErr
 		}
